@@ -1,6 +1,7 @@
 package sx
 
 import (
+	"time"
 	"crypto/hmac"
 	"crypto/sha256"
 	"fmt"
@@ -110,6 +111,37 @@ func init() {
 		ctor := rt.Func("NewHMACModel")
 		r := call(fr.i, fr, token.NoPos, ctor, []value{args[1]})
 		return iface{t: types.NewPointer(rt.Type("HMACModel").Type()), v: r}
+	}
+
+	// time.Parse / time.Date on concrete arguments: the real function, result in the time model (instant only).
+	symExternals["time.Parse"] = func(fr *frame, args []value) value {
+		layout, ok1 := args[0].(string)
+		val, ok2 := args[1].(string)
+		if !ok1 || !ok2 {
+			panic(abortPath{"time model: time.Parse on a symbolic string"})
+		}
+		t, err := time.Parse(layout, val)
+		if err != nil {
+			errorsPkg := fr.i.prog.ImportedPackage("errors")
+			cell := value(structure{err.Error()})
+			return tuple{mkTime(uint64(0), int64(0)), iface{t: types.NewPointer(errorsPkg.Type("errorString").Type()), v: &cell}}
+		}
+		return tuple{mkTime(uint64(1), mkScalar(tConst(t.UnixNano()), types.Int64)), iface{}}
+	}
+	symExternals["time.Date"] = func(fr *frame, args []value) value {
+		var n [7]int
+		for k := 0; k < 7; k++ {
+			switch x := args[k].(type) {
+			case int:
+				n[k] = x
+			case int64: // time.Month
+				n[k] = int(x)
+			default:
+				panic(abortPath{"time model: time.Date on symbolic components"})
+			}
+		}
+		t := time.Date(n[0], time.Month(n[1]), n[2], n[3], n[4], n[5], n[6], time.UTC)
+		return mkTime(uint64(1), mkScalar(tConst(t.UnixNano()), types.Int64))
 	}
 
 	symExternals["time.Unix"] = func(fr *frame, args []value) value {
